@@ -11,7 +11,12 @@ clauses (spec/Chronicle_Trace.tla).
 usage: python -m harness.chronicle_h <jobs.json> <out.ndjson>
  jobs.json = {"jobs": [ {"id": .., "table": {cal, tod, at, run, st, zone}, "appends": [entry id ..],
                          "strform": bool,
-                         "queries": [[after, before, limit, ok(0/1), now, zone, kind, e], ..]} ]}
+                         "queries": [[after, before, limit, ok(0/1), now, zone, kind, e], ..],
+                         "events": [["a", entry id] | ["q", after, before, limit, ok, now, zone, kind, e] | ["r"], ..]} ]}
+ One job = ONE PROCESS LIFE: the module state of the real code lives on from event to event.  With
+ "events" the life is that list (appends, queries and restarts "r" in any order) followed by
+ "queries"; without, it is "appends" followed by "queries".  A restart reloads the chronicle module
+ (module level state gone, as in a new process; clock and mutant re-installed); files are read back.
  kind 0 = chronicle.find, 1 = fe.api.schedule.failed|succeeded, 2 = ANOTHER READER of the history:
  the real dawgie.fe.api.df_model_statistics([task of entry e]) with dawgie.context.boot_time =
  `after` (the scheduler's queues are empty: the node is neither doing nor to do); the files are
@@ -28,6 +33,7 @@ usage: python -m harness.chronicle_h <jobs.json> <out.ndjson>
 '''
 
 import datetime as _dt
+import importlib
 import inspect
 import json
 import os
@@ -100,6 +106,18 @@ def install_mutant(name):
         api.failed, api.succeeded = orig_s, orig_f
     else:
         raise SystemExit(f'unknown mutant {name}')
+
+
+MUTANT = os.environ.get('VERIF_MUTANT', '')
+
+
+def restart():
+    '''a new process as far as the history module is concerned: its module level state is gone'''
+    importlib.reload(chronicle)
+    chronicle.datetime = Clock
+    assert api.dawgie.pl.logger.chronicle is chronicle
+    if MUTANT and MUTANT != 'api_swap':
+        install_mutant(MUTANT)
 
 
 # ------------------------------------------------------------------ world
@@ -195,20 +213,34 @@ def run_job(job, corrupt):
     chron = os.path.join(base, 'chronicles')
     Clock.current = None
     steps = [{'ev': 'init', 'args': dict(NOARGS), 'st': {'files': w.readback(chron)}, 'obs': {'res': [], 'err': ''}}]
-    for k, e in enumerate(job['appends']):
-        err = ''
-        # the clock of the pipeline at completion time (append itself must not need it)
-        Clock.current = w.inst(w.table['at'][e - 1])
-        try:
-            chronicle.append(w.entry(e, job.get('strform', False)))
-        except Exception as ex:  # pylint: disable=broad-except
-            err = repr(ex)[:200]
-        files = w.readback(chron)
-        if corrupt == 'files_drop' and k == len(job['appends']) - 1 and files and files[0]['ents']:
-            files[0]['ents'] = files[0]['ents'][1:]
-        steps.append({'ev': 'append', 'args': dict(NOARGS, e=e), 'st': {'files': files}, 'obs': {'res': [], 'err': err}})
+    prog = [list(x) for x in job['events']] if job.get('events') else [['a', e] for e in job['appends']]
+    prog += [['q'] + list(x) for x in job['queries']]
+    last_append = max([k for k, x in enumerate(prog) if x[0] == 'a'], default=-1)
     nres = 0
-    for after, before, limit, ok, now, zone, qkind, qe in job['queries']:
+    for k, item in enumerate(prog):
+        if item[0] == 'a':
+            e = item[1]
+            err = ''
+            # the clock of the pipeline at completion time (append itself must not need it)
+            Clock.current = w.inst(w.table['at'][e - 1])
+            try:
+                chronicle.append(w.entry(e, job.get('strform', False)))
+            except Exception as ex:  # pylint: disable=broad-except
+                err = repr(ex)[:200]
+            files = w.readback(chron)
+            if corrupt == 'files_drop' and k == last_append and files and files[0]['ents']:
+                files[0]['ents'] = files[0]['ents'][1:]
+            steps.append({'ev': 'append', 'args': dict(NOARGS, e=e), 'st': {'files': files}, 'obs': {'res': [], 'err': err}})
+            continue
+        if item[0] == 'r':
+            err = ''
+            try:
+                restart()
+            except Exception as ex:  # pylint: disable=broad-except
+                err = repr(ex)[:200]
+            steps.append({'ev': 'reopen', 'args': dict(NOARGS), 'st': {'files': w.readback(chron)}, 'obs': {'res': [], 'err': err}})
+            continue
+        after, before, limit, ok, now, zone, qkind, qe = item[1:]
         via_api = qkind == 1
         Clock.current = w.inst(now)
         if qkind == 2:
@@ -282,9 +314,8 @@ def run_job(job, corrupt):
 def main():
     with open(sys.argv[1], 'rt', encoding='utf-8') as f:
         jobs = json.load(f)['jobs']
-    mutant = os.environ.get('VERIF_MUTANT', '')
-    if mutant:
-        install_mutant(mutant)
+    if MUTANT:
+        install_mutant(MUTANT)
     corrupt = os.environ.get('VERIF_CORRUPT', '')
     with open(sys.argv[2], 'wt', encoding='utf-8') as out:
         for job in jobs:
